@@ -207,11 +207,59 @@ template<class T, class K> struct Driver {
     }
   }
 
-  void segment(long seg, long events, int far_pct, bool restore = false) {
+  // ---- sources in the known-finding state as merge OPERANDS.  A compaction of mutually far points (all kernel values 0, coin 0)
+  // promotes nothing; the image of such a sketch ends with an empty level which deserialize() drops (recorded known finding C09,
+  // judged at the ordinary Deser events).  Here the restored sketch is ADOPTED without judging its levels, and then "merging adds
+  // n" (C20's own clause) is judged on targets it is merged into, and on itself as a target; the same merge of the in-memory
+  // source is the control.
+  void kf_body(uint32_t dim) {
+    std::vector<int> ids; for (size_t j = 0; j < pts.size(); j++) if (pts[j].size() == dim) ids.push_back((int)j + 1);
+    if (ids.size() < 8) return;
+    std::unique_ptr<DS> w[4];
+    auto wnew = [&](int i, int k) { w[i].reset(new DS((uint16_t)k, dim, kernel)); Ev e("WNew"); e.i("id", i); post(e, *w[i], false, true); e.emit(); };
+    auto wupd = [&](int i, int pid) { w[i]->update(vec(pts[pid - 1])); Ev e("WStep"); e.i("id", i).str("op", "update").i("p", pid); post(e, *w[i], false, true); e.emit(); };
+    auto wmrg = [&](int i, int src, bool rvalue) {
+      if (rvalue) { DS tmp(*w[src]); w[i]->merge(std::move(tmp)); } else w[i]->merge(*w[src]);
+      Ev e("WStep"); e.i("id", i).str("op", "merge").i("src", src); post(e, *w[i], false, true); e.emit(); };
+    for (int path = 0; path < 2; path++) for (int rv = 0; rv < 2; rv++) {
+      const int k = 2 + (int)g.below(2);
+      std::vector<int> ups; for (int u = 0; u < k + 2; u++) ups.push_back(ids[(size_t)(u * 2 + path) % ids.size()]);   // distinct, mutually far
+      uint64_t s = 0; bool found = false;
+      for (int tries = 0; tries < 400 && !found; tries++) {   // a coin / shuffle seed for which the source ends with an empty top level
+        s = g.next(); reseed(s);
+        DS t((uint16_t)k, dim, kernel); for (int pid : ups) t.update(vec(pts[pid - 1]));
+        std::string ts(t.to_string(true, false).c_str()); long nl = field(ts, "Levels         ");
+        std::string key = "   " + std::to_string(nl - 1) + ": "; size_t p = ts.find(key, ts.find("height: size"));
+        found = nl > 1 && p != std::string::npos && atol(ts.c_str() + p + key.size()) == 0 && t.get_num_retained() >= 1 && t.get_num_retained() <= (unsigned)k;
+      }
+      if (!found) continue;
+      wnew(0, k); reseed(s); for (int pid : ups) wupd(0, pid);
+      // control: the in-memory source merged into a target
+      wnew(3, 4); for (int u = 0; u < 4; u++) wupd(3, ids[g.below(ids.size())]);
+      wmrg(3, 0, rv != 0);
+      // image of the source, restored through one path, adopted as it is
+      auto bytes0 = w[0]->serialize();
+      std::ostringstream os; w[0]->serialize(os); std::string st = os.str();
+      { Ev e("WSer"); e.i("src", 0).i("blob", path).i("size", (long long)bytes0.size()).bytes("img", bytes0.data(), bytes0.size()).bytes("simg", st.data(), st.size());
+        post(e, *w[0], false, true); e.emit(); }
+      if (path == 0) w[1].reset(new DS(DS::deserialize(bytes0.data(), bytes0.size(), kernel)));
+      else { std::istringstream is(st); w[1].reset(new DS(DS::deserialize(is, kernel))); }
+      { Ev e("WAdopt"); e.i("blob", path).i("dst", 1).str("path", path ? "stream" : "bytes"); post(e, *w[1], false, true); e.emit(); }
+      // the restored source as a merge operand of a target, and as a target itself
+      wnew(2, 4); for (int u = 0; u < 4; u++) wupd(2, ids[g.below(ids.size())]);
+      wmrg(2, 1, rv != 0);
+      wmrg(1, 3, rv == 0);
+    }
+  }
+
+  // restore: 0 = random segment, 1 = directed restore / refusal / wide-counter segment, 2 = directed segment with sources in
+  // the known-finding state (image with an empty top level) used as merge operands
+  void segment(long seg, long events, int far_pct, int restore = 0) {
     uint32_t dim = (uint32_t)g.range(1, 3);
     long W = g.range(2, 9);
     long P = g.range(3, 40);
     far = !restore && !gauss && (int)g.below(100) < far_pct;
+    if (restore == 2) { far = true; dim = 2; W = 9; P = 30; }
     pts.clear(); idof.clear();
     const uint32_t alt = dim % 3 + 1;               // a few pool points (and sometimes a sketch) of another dimension
     for (long j = 0; j < P + 4; j++) {
@@ -219,14 +267,14 @@ template<class T, class K> struct Driver {
       if (idof.count(c)) continue;
       pts.push_back(c); idof[c] = (int)pts.size();
     }
-    if (restore) {   // one point whose dimension differs from the configured one by exactly 2^16 (wrap-around neighbour of the check)
+    if (restore == 1) {   // one point whose dimension differs from the configured one by exactly 2^16 (wrap-around neighbour of the check)
       std::vector<long> c(dim + 65536, 0); c[0] = 1; c[dim + 65535] = 2;
       pts.push_back(c); idof[c] = (int)pts.size();
     }
     scale = gauss ? 0.25 : 1.0;
     // tent kernel: strictly positive on the whole pool (R > diameter) unless the segment is a "far" one (compact support,
     // most kernel values 0)
-    R = far ? (double)g.range(1, 60) : (double)(3 * W + g.range(1, 5));
+    R = far ? (double)g.range(1, restore == 2 ? 40 : 60) : (double)(3 * W + g.range(1, 5));
     S = 16;
     if constexpr (std::is_same<K, tent_kernel<T>>::value) kernel.R = R;
     random_utils::override_seed(1000003ULL * (uint64_t)(seg + 1) + g.next() % 1000);
@@ -237,7 +285,8 @@ template<class T, class K> struct Driver {
     b.s += "]"; b.emit();
     for (int i = 0; i <= NS; i++) { sk[i].reset(); rst[i] = false; }
     for (int x = 0; x < NB; x++) blive[x] = false;
-    if (restore) { restore_body(dim); return; }
+    if (restore == 1) { restore_body(dim); return; }
+    if (restore == 2) { kf_body(dim); return; }
     mk(0, dim);
     for (long n = 0; n < events; n++) {
       int i = (int)g.below(NS);
@@ -364,9 +413,11 @@ int main(int argc, char** argv) {
   random_utils::random_bit.source = coin_source;
   if (vt::argl(argc, argv, "--restore", 0) > 0) {   // directed C09 segments, present in every run of the job
     alarm(60);
-    { Driver<double, tent_kernel<double>> d(g, serde_pct, false); d.segment(-1, 0, 0, true); }
-    { Driver<float, tent_kernel<float>> d(g, serde_pct, false); d.segment(-2, 0, 0, true); }
-    { Driver<float, gaussian_kernel<float>> d(g, serde_pct, true); d.segment(-3, 0, 0, true); }
+    { Driver<double, tent_kernel<double>> d(g, serde_pct, false); d.segment(-1, 0, 0, 1); }
+    { Driver<float, tent_kernel<float>> d(g, serde_pct, false); d.segment(-2, 0, 0, 1); }
+    { Driver<float, gaussian_kernel<float>> d(g, serde_pct, true); d.segment(-3, 0, 0, 1); }
+    { Driver<double, tent_kernel<double>> d(g, serde_pct, false); d.segment(-4, 0, 0, 2); }
+    { Driver<float, tent_kernel<float>> d(g, serde_pct, false); d.segment(-5, 0, 0, 2); }
   }
   for (long seg = 0; seg < segments; seg++) {
     alarm(30);    // watchdog: a sketch that loops forever is a finding (the recorder dies by SIGALRM), not a hung check
